@@ -20,6 +20,8 @@ structure BlockCodec where
   uncompressBlock : Bytes → Nat → Res Bytes
   /-- `snappy.Encode(nil, src)` -/
   encode : Bytes → Bytes
+  /-- `snappy.DecodedLen(src)`: the decompressed length the block header declares -/
+  decodedLen : Bytes → Res Nat
   /-- `snappy.Decode(nil, src)` -/
   decode : Bytes → Res Bytes
 
@@ -87,13 +89,23 @@ def lz4DecompressWithLength (codec : BlockCodec) (chunk : Bytes) : Res Bytes := 
 def snappyCompressWithLength (codec : BlockCodec) (src : Bytes) : Res Bytes :=
   .ok (codec.encode src)
 
+/-- `maxCompressionRatio` of compression/snappy/snappy.go -/
+def snappyMaxRatio : Nat := 64
+
+/-- the decoding step of `DecompressWithLength`: the declared length is checked against what the compressed bytes can
+    expand to before `snappy.Decode` allocates it -/
+def snappyDecodeChecked (codec : BlockCodec) (chunk : Bytes) : Res Bytes := do
+  let n ← codec.decodedLen chunk
+  if n > snappyMaxRatio * chunk.length then .err "declared length is impossible"
+  else codec.decode chunk
+
 /-- reads the whole source -/
 def snappyDecompressWithLengthRest (codec : BlockCodec) (chunk : Bytes) : Res (Bytes × Bytes) := do
-  let d ← codec.decode chunk
+  let d ← snappyDecodeChecked codec chunk
   pure (d, [])
 
 def snappyDecompressWithLength (codec : BlockCodec) (chunk : Bytes) : Res Bytes :=
-  codec.decode chunk
+  snappyDecodeChecked codec chunk
 
 /-! ## the compressors as the frame and segment codecs see them -/
 
@@ -133,6 +145,10 @@ structure Lz4Law (codec : BlockCodec) : Prop where
 /-- The contract of the Snappy block functions. -/
 structure SnappyLaw (codec : BlockCodec) : Prop where
   decode_encode : ∀ x, codec.decode (codec.encode x) = .ok x
+  /-- the block header carries the length of what was encoded -/
+  decodedLen_encode : ∀ x, codec.decodedLen (codec.encode x) = .ok x.length
+  /-- the format's ratio bound: no element produces more than 64 bytes and every element occupies at least one byte -/
+  ratio : ∀ x, x.length ≤ snappyMaxRatio * (codec.encode x).length
   /-- `len(snappy.Encode(nil, src)) ≤ snappy.MaxEncodedLen(len(src)) = 32 + len(src) + len(src)/6` -/
   bound : ∀ x, (codec.encode x).length ≤ 32 + x.length + x.length / 6
 
@@ -147,6 +163,7 @@ def literalCodec : BlockCodec :=
       | 1 :: x => if x.length ≤ dstSize then .ok x else .err "short buffer"
       | _ => .err "invalid source"
     encode := fun x => x
+    decodedLen := fun x => .ok x.length
     decode := fun x => .ok x }
 
 end Cql.Compress
